@@ -5,10 +5,12 @@ spec/NtsKe.tla            the client side of the key exchange (Fetcher.FetchData
 spec/mc/NtsKeGen.tla      history generator (exhaustive single exchanges; tlc -simulate for multi-call histories)
 spec/trace/NtsKeTrace.tla monitor (property section on the recorded behaviour) and strict mode
 
-1. TLC decides the property section on the repaired variant (ResidueAfterFailure = FALSE) exhaustively and
-   shows the counterexample of the variant that models the code as written - information, never a verdict.
+1. TLC decides the property section on the default variant (ResidueAfterFailure = FALSE, ShortCookieRead = FALSE,
+   DialResetsData = TRUE) exhaustively; the old-switch configurations (NtsKe_faithful.cfg, NtsKe_quic_faithful.cfg,
+   NtsKe_quic_fix1.cfg) are spec self-tests: TLC must refute them - information, never a verdict.
 2. TLC generates the histories: every peer script of <= 3 (quick) / <= 4 (thorough) records x ALPN answer x
-   truncation, plus random walks through Next with <= 6 records, 3 exchanges, 6 calls, StoreCookie.
+   truncation; every almost-acceptable message (AEAD 15 + cookies + at most one other record, <= 4 / <= 6 records);
+   random walks through Next with <= 6 records, 3 exchanges, 6 calls, StoreCookie; the same (smaller) for QUIC.
 3. harness/c20 replays them on the real Fetcher / IPClient against a scripted TLS 1.3 peer that exports its own
    keys (every history is followed by a probe call; histories with unrecognised non-critical records are run a
    second time without them), runs the project's own StartNTSKEServerIP against the real Fetcher and opens its
@@ -24,9 +26,21 @@ MON = ["TSuccessOnlyIf", "TIgnoresNonCritical", "TKeysAgree", "TPoolIsIssued", "
        "TNoResidue"]
 ACTIONS = ["FetchCached", "Dial", "CheckAlpn", "SendRequest", "ReadRecord", "ReadCut", "PeerClose", "Export",
            "Finish", "StoreCookie"]
-# (ResidueAfterFailure, ShortCookieRead): code as written first
-VARIANTS = [("TRUE", "TRUE", "code as written"), ("FALSE", "TRUE", "failed exchange clears Fetcher.data"),
-            ("TRUE", "FALSE", "cookie bodies read completely"), ("FALSE", "FALSE", "both repairs")]
+
+
+def variants(transport):
+    """switch settings of NtsKe.tla tried by strict mode, the repository's current code first:
+    (ResidueAfterFailure, ShortCookieRead, DialResetsData, description)"""
+    res = []
+    for short in ("FALSE", "TRUE"):
+        for residue, dial in (("FALSE", "FALSE"), ("FALSE", "TRUE"), ("TRUE", "FALSE"), ("TRUE", "TRUE")):
+            if transport == "tls" and dial == "FALSE":
+                continue
+            res.append((residue, short, dial, "ResidueAfterFailure=%s ShortCookieRead=%s DialResetsData=%s" %
+                        (residue, short, dial)))
+    return res
+
+
 CHUNK = 5000
 KEEP = ("ev", "via", "planned", "served", "dialed", "sess", "ok", "ret", "post", "dest", "has_un", "twin", "id")
 
@@ -84,7 +98,7 @@ def split_cases(evs):
     for e in evs:
         if e["ev"] == "reset":
             cases.append([])
-        else:
+        elif e["ev"] != "skip":   # a StoreCookie the driver left out (no successful call before it)
             cases[-1].append(e)
     return [c for c in cases if c]
 
@@ -176,7 +190,7 @@ def corrupt(evs, what):
     raise vlib.Inconclusive("corrupt control: no suitable event for %r" % what)
 
 
-def validate_all(ctx, pool, evs, transport, dialresets, label):
+def validate_all(ctx, pool, evs, transport, label):
     """monitor + strict validation of one driver's events. Returns (#histories validated, #events, variant)."""
     cases = split_cases(evs)
     parts = chunks(cases, CHUNK)
@@ -190,8 +204,8 @@ def validate_all(ctx, pool, evs, transport, dialresets, label):
         todo = list(MON)
         res, clean = [], True
         with lock:
-            order = ([state["variant"]] if state["variant"] else []) + [v for v in VARIANTS if v != state["variant"]]
-        hit, last, vi = None, None, 0
+            order = ([state["variant"]] if state["variant"] else []) + [v for v in variants(transport) if v != state["variant"]]
+        hit, last, vi = None, (-1, None), 0
         # one TLC run checks the monitor invariants and, in the same pass, strict mode under the most likely
         # switch setting; a monitor violation is recorded, that invariant dropped and the rest checked again;
         # a strict failure moves on to the next switch setting
@@ -199,14 +213,16 @@ def validate_all(ctx, pool, evs, transport, dialresets, label):
             strict = hit is None and vi < len(order)
             v = order[vi] if strict else order[0]
             body = ("INVARIANTS " + " ".join(todo) + "\n" if todo else "") + ("PROPERTIES StrictProp" if strict else "")
-            ok, l, pp, inv, out = lane.validate(transport, v[0], v[1], dialresets, body)
+            ok, l, pp, inv, out = lane.validate(transport, v[0], v[1], v[2], body)
             if ok:
                 if strict:
                     hit = v
                 break
             if inv == "StrictProp":
-                if vi == 0 and l and pp:
-                    last = part[l - 1][pp - 1]
+                # remember the example of the setting that explained most of the trace
+                m = re.findall(r"(\d+) distinct states found", out)
+                if l and pp and m and int(m[-1]) > last[0]:
+                    last = (int(m[-1]), part[l - 1][pp - 1], v[3])
                 vi += 1
                 continue
             clean = False
@@ -217,14 +233,16 @@ def validate_all(ctx, pool, evs, transport, dialresets, label):
             todo.remove(inv)
         with lock:
             if hit is None:
-                state["drift"].append("%s: call not the one NtsKe.tla computes under any switch setting, e.g. %s" %
-                                      (label, json.dumps({k: last[k] for k in KEEP if k != "twin"}, separators=(",", ":"))[:700]
-                                       if last else "?"))
+                if not state["drift"]:
+                    state["drift"].append(
+                        "%s: a call is not the one NtsKe.tla computes under any switch setting, e.g. (closest setting: %s) %s" %
+                        (label, last[2] if last[1] else "?",
+                         json.dumps({k: last[1][k] for k in KEEP if k != "twin"}, separators=(",", ":"))[:700] if last[1] else "?"))
             elif state["variant"] is None:
                 state["variant"] = hit
             elif state["variant"] != hit:
                 state["drift"].append("%s: parts of the trace match different switch settings (%s / %s)" %
-                                      (label, state["variant"][2], hit[2]))
+                                      (label, state["variant"][3], hit[3]))
         return res, len(part) if clean else 0
 
     nval = 0
@@ -243,43 +261,64 @@ def validate_all(ctx, pool, evs, transport, dialresets, label):
 
 
 def run(ctx):
+    try:
+        _run(ctx)
+    except vlib.Inconclusive:
+        raise
+    except Exception as e:    # a failure of this script is never a verdict about the code
+        import traceback
+        raise vlib.Inconclusive("checks/c20.py failed: %s\n%s" % (e, traceback.format_exc()[-1500:]))
+
+
+def _run(ctx):
     q = ctx.quick
-    # ---- 1. design level
-    r = ctx.tlc("NtsKeMC", "NtsKe_exh.cfg" if q else "NtsKe_deep.cfg", timeout=240 if q else 900)
-    ctx.log("TLC exhaustive (repaired variant): %d distinct states, property section holds" % r["distinct"])
-    # vacuity: every action of the specification is taken (small configuration, -coverage 1)
-    c = ctx.tlc("NtsKeMC", "NtsKe_cov.cfg", timeout=240, coverage=True, tag="coverage")
-    cov = {}
-    for a, n in re.findall(r"^<(\w+) line [^>]*of module NtsKe[^>]*>: (\d+):\d+", c["out"], re.M):
-        cov[a] = cov.get(a, 0) + int(n)
-    dead = [a for a in ACTIONS if cov.get(a, 0) == 0]
-    if dead:
-        raise vlib.Inconclusive("NtsKe.tla: actions never taken in %s: %s" % (c["cfg"], dead))
-    ctx.cov["action_coverage"] = {a: cov[a] for a in ACTIONS}
-    fr = ctx.tlc("NtsKeMC", "NtsKe_faithful.cfg", timeout=240, allow_violation=True, tag="faithful")
-    if fr["violated"] != "NoResidue":
-        raise vlib.Inconclusive("spec self-test: the variant modelling the code as written should violate NoResidue, "
-                                "TLC says %s" % fr["violated"])
-    ctx.notes.append("NtsKe.tla with ResidueAfterFailure = TRUE (code as written) violates NoResidue on the "
-                     "specification (information only)")
+    ctx.specdir()             # (created lazily by vlib: before the threads start)
+    jobs = ThreadPoolExecutor(max_workers=6)
+    nsim, nqsim = (150, 60) if q else (2000, 600)
+
+    def sim(cfg, n):
+        s = ctx.tlc("NtsKeGen", cfg, workers=1, timeout=600, simulate="num=%d" % n, depth=150, tag="sim:" + cfg)
+        beh = ctx.emitted(s["out"])
+        if len(beh) < n // 2:
+            raise vlib.Inconclusive("%s produced only %d histories" % (cfg, len(beh)))
+        return beh
+
+    # ---- 1. design level (the TLC runs are independent of each other: started together)
+    f_exh = jobs.submit(ctx.tlc, "NtsKeMC", "NtsKe_exh.cfg" if q else "NtsKe_deep.cfg", timeout=300 if q else 1200)
+    f_cov = jobs.submit(ctx.tlc, "NtsKeMC", "NtsKe_cov.cfg", workers=2, timeout=240, coverage=True, tag="coverage")
+    f_fth = jobs.submit(ctx.tlc, "NtsKeMC", "NtsKe_faithful.cfg", workers=2, timeout=240, allow_violation=True, tag="old-switch")
+    f_q = [jobs.submit(ctx.tlc, "NtsKeMC", "NtsKe_quic_%s.cfg" % n, workers=2, timeout=300, allow_violation=n != "exh",
+                       tag="quic:" + n) for n in (("exh", "faithful", "fix1") if not q else ("faithful",))]
     # ---- 2. histories from the specification
-    g = ctx.tlc("NtsKeGen", "NtsKe_gen.cfg" if q else "NtsKe_gendeep.cfg", workers=1, timeout=600, tag="gen")
-    cases = ctx.emitted(g["out"])
+    f_gen = jobs.submit(ctx.tlc, "NtsKeGen", "NtsKe_gen.cfg" if q else "NtsKe_gendeep.cfg", workers=1, timeout=600, tag="gen")
+    f_dec = jobs.submit(ctx.tlc, "NtsKeGen", "NtsKe_gendec.cfg" if q else "NtsKe_gendecdeep.cfg", workers=1, timeout=600,
+                        tag="gen:decorated")
+    f_sim = [jobs.submit(sim, cfg, nsim) for cfg in ("NtsKe_sim.cfg", "NtsKe_simrep.cfg")]
+    f_qgen = jobs.submit(ctx.tlc, "NtsKeGen", "NtsKe_qgen.cfg", workers=1, timeout=600, tag="gen:quic")
+    f_qdec = jobs.submit(ctx.tlc, "NtsKeGen", "NtsKe_qgendec.cfg", workers=1, timeout=600, tag="gen:quic-decorated")
+    f_qsim = jobs.submit(sim, "NtsKe_qsim.cfg", nqsim)
+
+    cases = ctx.emitted(f_gen.result()["out"])
     nexh = len(cases)
     if nexh < 2000:
         raise vlib.Inconclusive("exhaustive generator produced only %d scripts" % nexh)
-    nsim = 150 if q else 3000
-    for cfg in ("NtsKe_sim.cfg", "NtsKe_simrep.cfg"):
-        s = ctx.tlc("NtsKeGen", cfg, workers=1, timeout=600, simulate="num=%d" % nsim, depth=150, tag="sim:" + cfg)
-        beh = ctx.emitted(s["out"])
-        if len(beh) < nsim // 2:
-            raise vlib.Inconclusive("%s produced only %d histories" % (cfg, len(beh)))
-        cases += beh
+    dec = ctx.emitted(f_dec.result()["out"])
+    if len(dec) < 500:
+        raise vlib.Inconclusive("generator of almost-acceptable messages produced only %d scripts" % len(dec))
+    cases += dec
+    nexh = len(cases)
+    for f in f_sim:
+        cases += f.result()
     cp = ctx.path("cases.ndjson")
     vlib.write_ndjson(cp, cases)
-    ctx.log("TLC generated %d single-exchange scripts (exhaustive) + %d multi-call histories (simulation)" %
-            (nexh, len(cases) - nexh))
-    # ---- 3. the real code
+    qcases = ctx.emitted(f_qgen.result()["out"]) + ctx.emitted(f_qdec.result()["out"])
+    nqexh = len(qcases)
+    qcases += f_qsim.result()
+    qp = ctx.path("qcases.ndjson")
+    vlib.write_ndjson(qp, qcases)
+    ctx.log("TLC generated %d single-exchange scripts (exhaustive) + %d multi-call histories (simulation); "
+            "QUIC: %d + %d" % (nexh, len(cases) - nexh, nqexh, len(qcases) - nqexh))
+    # ---- 3. the real code (while the exhaustive run may still be going on)
     tp, out = ctx.godriver("c20", "TestC20", cases=cp, timeout=300 if q else 1500, extra=("-v",))
     evs = vlib.read_ndjson(tp)
     stats = dict(kv.split("=") for line in out.splitlines() if line.startswith("C20STATS") for kv in line.split()[1:])
@@ -287,6 +326,9 @@ def run(ctx):
     op, out = ctx.godriver("c20", "TestOwnServer", out_name="own.ndjson", timeout=300, extra=("-v",))
     own = vlib.read_ndjson(op)
     ctx.log("own server: %d events" % len(own))
+    qtp, out = ctx.godriver("c20", "TestQUIC", cases=qp, out_name="quic.ndjson", timeout=600, extra=("-v",))
+    qevs = vlib.read_ndjson(qtp)
+    ctx.log("scripted peer over QUIC: " + " ".join(l[8:] for l in out.splitlines() if l.startswith("C20QUIC")))
     what = os.environ.get("VERIF_C20_CORRUPT")
     if what:
         i = corrupt(evs, what)
@@ -294,35 +336,71 @@ def run(ctx):
         ctx.log("SELFTEST corrupt=%s at event %d" % (what, i))
     # ---- 4. code -> spec
     nval = nev = 0
-    with ThreadPoolExecutor(max_workers=6) as pool:
-        n, m, var = validate_all(ctx, pool, evs, "tls", "TRUE", "scripted peer")
-        nval, nev = nval + n, nev + m
-        n, m, var2 = validate_all(ctx, pool, own, "tls", "TRUE", "own server")
-        nval, nev = nval + n, nev + m
-    if var:
-        ctx.notes.append("strict mode: the recorded calls are the ones NtsKe.tla computes with switches '%s'" % var[2])
-    calls = [e for e in evs + own if e["ev"] == "call"]
-    distinct = len({(json.dumps(e["served"], sort_keys=True), e["dialed"], e["via"]) for e in calls})
-    npanic = sum(1 for e in calls if e["panicked"])
-    if npanic:
-        ctx.notes.append("%d recorded calls ended in a panic of the client code (not judged here: C08/C11)" % npanic)
+    with ThreadPoolExecutor(max_workers=5) as pool:
+        for part, transport, label in ((evs, "tls", "scripted peer"), (own, "tls", "own server"),
+                                       (qevs, "quic", "scripted peer over QUIC")):
+            n, m, var = validate_all(ctx, pool, part, transport, label)
+            nval, nev = nval + n, nev + m
+            if var:
+                ctx.notes.append("strict mode, %s: the recorded calls are the ones NtsKe.tla computes with the switches "
+                                 "set for: %s" % (label, var[3]))
+    # ---- design-level results
+    r = f_exh.result()
+    ctx.log("TLC exhaustive (repaired variant): %d distinct states, property section holds" % r["distinct"])
+    c = f_cov.result()
+    cov = {}
+    for a, n in re.findall(r"^<(\w+) line [^>]*of module NtsKe[^>]*>: (\d+):\d+", c["out"], re.M):
+        cov[a] = cov.get(a, 0) + int(n)
+    dead = [a for a in ACTIONS if cov.get(a, 0) == 0]
+    if dead:
+        raise vlib.Inconclusive("NtsKe.tla: actions never taken in %s: %s" % (c["cfg"], dead))
+    ctx.cov["action_coverage"] = {a: cov[a] for a in ACTIONS}
+    fr = f_fth.result()
+    if fr["violated"] != "NoResidue":
+        raise vlib.Inconclusive("spec self-test: the variant with ResidueAfterFailure = TRUE (the code before the fix) "
+                                "should violate NoResidue, TLC says %s" % fr["violated"])
+    info = ["TLS, ResidueAfterFailure = TRUE (the code before the fix): NoResidue"]
+    for f in f_q:
+        x = f.result()
+        if x["tag"] != "quic:exh":
+            if not x["violated"]:
+                raise vlib.Inconclusive("spec self-test: %s should violate the property section" % x["cfg"])
+            info.append("%s: %s" % (x["cfg"], x["violated"]))
+    ctx.notes.append("spec self-test: the old-switch variants of NtsKe.tla violate the property section on the "
+                     "specification (information only): " + "; ".join(info))
+    jobs.shutdown()
+    calls = [e for e in evs + own + qevs if e["ev"] == "call"]
+    distinct = len({(e["src"], json.dumps(e["served"], sort_keys=True), e["dialed"], e["via"]) for e in calls})
+    panics = {}
+    for e in calls:
+        if e["panicked"]:
+            k = re.sub(r"\d+", "N", e["note"])[:90]
+            panics[k] = panics.get(k, 0) + 1
+    if panics:
+        ctx.notes.append("recorded calls that ended in a panic of the client code (recorded as observations, not judged "
+                         "by C20's clauses): %s" % json.dumps(panics))
     firstok = next((e for e in evs if e["ev"] == "call" and e["ok"] and e["dialed"]), None)
+    qok = next((e for e in qevs if e["ev"] == "call" and e["ok"] and e["dialed"]), None)
     ctx.cov.update(
         evaluations=len(calls), distinct_nontrivial=distinct, events_validated=nev,
         traces_validated_against_impl=nval, exhaustive=True,
         rule="every peer script of <= %d records over 16 record kinds x truncation of the last record (header / body) x "
-             "ALPN answer (TLC-enumerated, exhaustive), each followed by a probe call; plus tlc -simulate walks through "
-             "NtsKe's Next (<= 6 records, 3 exchanges, 6 calls, StoreCookie) from the as-written and the repaired variant; "
+             "ALPN answer, and every message of <= %d records made of AEAD(15) and cookie records plus at most one record of "
+             "any other kind (TLC-enumerated, exhaustive), each followed by a probe call; plus tlc -simulate walks through "
+             "NtsKe's Next (<= 6 records, 3 exchanges, 6 calls, StoreCookie) from the old-switch and the default variant; "
              "histories containing unrecognised non-critical records also run without them; the project's own "
-             "StartNTSKEServerIP against the real Fetcher with its cookies opened; 20%% of the calls go through "
-             "client.MeasureClockOffsetIP with the NTP request captured; distinct = distinct (served script, dialed, via)"
-             % (3 if q else 4),
-        samples=[x for x in (firstok, own[1] if len(own) > 1 else None, evs[1] if len(evs) > 1 else None) if x])
+             "StartNTSKEServerIP against the real Fetcher with its cookies opened; 20%% of the TLS calls go through "
+             "client.MeasureClockOffsetIP with the NTP request captured; the same over QUIC on a same-AS empty SCION path "
+             "(scripts of <= 2 records exhaustively + walks); distinct = distinct (transport, served script, dialed, via)"
+             % ((3, 4) if q else (4, 6)),
+        samples=[{k: x[k] for k in x if k != "twin"} for x in (firstok, own[1] if len(own) > 1 else None, qok) if x])
     ctx.assumptions += [
-        "the scripted peer writes each message in one TLS record and closes gracefully (segmentation is C14's subject)",
+        "the scripted peer writes each message in one TLS record / one stream write and closes gracefully "
+        "(segmentation is C14's subject)",
         "keys, cookies, servers and ports are reported in model units by exact lookup against what the peer exported / "
         "issued (anything else maps to -1 / '?', which no clause accepts)",
         "Server records carry IP address literals (a host name there is outside what the NTP clients can use)",
         "own server: the cookies 'issued' are those that open under the provider's key (its wire is not observable)",
-        "ALPN answer 'other' and 'refused' end in a failed TLS handshake on either side (crypto/tls offers no way to "
-        "select a protocol the client did not offer)"]
+        "ALPN answers 'other' and 'refused' end in a failed handshake on either side (crypto/tls offers no way to "
+        "select a protocol the client did not offer); over QUIC a handshake without ALPN is impossible",
+        "QUIC: only FetchData is driven (no NTP request over SCION is sent); Destination is judged on the returned Data"]
